@@ -52,6 +52,24 @@ def libm_selftest(n=2000):
 # =============================================================================================
 def gen_box(r, n):
     style = r.choice(["unit", "sym", "random", "random", "tiny", "huge"])
+    if r.random() < 0.07:
+        # THIN sides: narrow relative to the magnitude of the bounds (2^-31 .. 2^-36 of |lower|, still millions of ulps wide) or
+        # narrow in absolute terms (2^-40, 1e-12 next to 0) - legal boxes on which a "fixed variable" guard written with a relative
+        # or an absolute tolerance goes wrong
+        lo, hi = [], []
+        for _ in range(n):
+            u = r.random()
+            if u < 0.4:
+                l = round(r.uniform(-5, 5), 2); side = round(r.uniform(0.1, 7), 2)
+            elif u < 0.75:
+                l = r.choice([-1.0, 1.0]) * r.choice([1000.0, 2.4e9, 37.25, 1e6, 5e6])
+                side = abs(l) * 2.0 ** -r.choice([31, 33, 36])
+            else:
+                l = r.choice([0.0, 0.0, 3.0, -0.0])
+                side = r.choice([2.0 ** -40, 1e-12, 2.0 ** -46]) * (1.0 if l == 0 else 4096.0)
+            lo.append(l); hi.append(l + side)
+        if all(h > l for l, h in zip(lo, hi)):
+            return lo, hi
     if style == "unit":
         return [0.0] * n, [1.0] * n
     if style == "sym":
